@@ -71,6 +71,9 @@ Print Assumptions C02_ranges_sorted.
 From BW Require Import SpecTag SpecBlocks Merge Context.
 From BWP Require Import Run_proofs Compose_proofs.
 From Coq Require Import Permutation.
+From BW Require Import Main.
+From BWGen Require Import ExtTable.
+From BWP Require Import Context_proofs Run_proofs Compose_proofs Main_proofs MainCompose_proofs Scope_proofs DiffScanE2E_proofs.
 (* For the sort, uniqueness, pattern, count, AI and script rules the diagnostics of the run over the selected blocks are exactly those a full scan computes for those blocks - none of an unselected block is reported, none of a selected block is dropped. *)
 Theorem C02_verdicts_agree : forall o ctx sel v,
   In v [V_SORTED; V_UNIQUE; V_PATTERN; V_COUNT; V_AI; V_LUA] ->
@@ -89,3 +92,82 @@ Theorem C02_rules_are_local : forall o nm nm' v f bc bc',
   validate_block o nm v f bc = validate_block o nm' v f bc'.
 Proof. exact validate_block_local. Qed.
 Print Assumptions C02_rules_are_local.
+
+(* Every file of the diff-mode context is a file of the full-scan context (when the scan examines it) holding exactly the scan's blocks that the diff touches, in the same order. *)
+Theorem C02_diff_context_is_selected_scan_context : forall ext fs ch,
+  NoDup (map rf_path fs) -> NoDup (map fst ch) ->
+  (forall p l, In (p, l) ch -> find_file p fs <> None) ->
+  let scan := build_context ext fs true [] in
+  let dif := build_context ext fs false ch in
+  forall f_dif, In f_dif (cr_ctx dif) ->
+  exists rf lcs,
+    In rf fs /\ rf_path rf = fc_path f_dif /\ rf_text rf = fc_text f_dif /\ rf_ignore rf = false /\
+    In (fc_path f_dif, lcs) ch /\ lcs_of ch (fc_path f_dif) = lcs /\
+    (* when the scan examines the file too: walked and allowed *)
+    (rf_exists rf && rf_allow rf = true ->
+     exists f_scan, In f_scan (cr_ctx scan) /\
+       fc_path f_scan = fc_path f_dif /\ fc_text f_scan = fc_text f_dif /\
+       map bc_block (fc_blocks f_dif) = map bc_block (filter (touched_by lcs) (fc_blocks f_scan))).
+Proof. exact diff_context_is_selected_scan_context. Qed.
+Print Assumptions C02_diff_context_is_selected_scan_context.
+
+(* Diff mode reports nothing the full scan would not report for the same block. *)
+Theorem C02_nothing_extra : forall (o : oracles) (ext : list (str * str)) (fs : list rfile) (ch : list (str * list lchange)) (v : N),
+  In v content_validators -> NoDup (map rf_path fs) -> NoDup (map fst ch) ->
+  (forall (p : str) (l : list lchange), In (p, l) ch -> find_file p fs <> None) ->
+  diff_in_scan_scope fs ch ->
+  prepass_clean v (cr_ctx (build_context ext fs true [])) ->
+  forall pd : str * diag,
+  In pd (vr_diags (run_validator o (cr_ctx (build_context ext fs false ch)) v)) ->
+  In pd (vr_diags (run_validator o (cr_ctx (build_context ext fs true [])) v)) /\
+  (exists (f : fctx) (bc : bctx),
+     In f (cr_ctx (build_context ext fs true [])) /\ In bc (fc_blocks f) /\
+     touched_by (lcs_of ch (fc_path f)) bc = true /\
+     In pd (block_verdict o (named_modified (cr_ctx (build_context ext fs true []))) v f bc)).
+Proof. exact diff_nothing_extra. Qed.
+Print Assumptions C02_nothing_extra.
+
+(* Every full-scan verdict of a touched block is reported in diff mode. *)
+Theorem C02_nothing_lost : forall (o : oracles) (ext : list (str * str)) (fs : list rfile) (ch : list (str * list lchange)) (v : N),
+  In v content_validators -> NoDup (map rf_path fs) -> NoDup (map fst ch) ->
+  (forall (p : str) (l : list lchange), In (p, l) ch -> find_file p fs <> None) ->
+  diff_in_scan_scope fs ch ->
+  prepass_clean v (cr_ctx (build_context ext fs true [])) ->
+  forall (f : fctx) (bc : bctx) (pd : str * diag),
+  In f (cr_ctx (build_context ext fs true [])) -> In bc (fc_blocks f) ->
+  touched_by (lcs_of ch (fc_path f)) bc = true ->
+  In pd (block_verdict o (named_modified (cr_ctx (build_context ext fs true []))) v f bc) ->
+  In pd (vr_diags (run_validator o (cr_ctx (build_context ext fs false ch)) v)).
+Proof. exact diff_nothing_lost. Qed.
+Print Assumptions C02_nothing_lost.
+
+(* Through main, two command lines (interactive scan; diff on stdin without globs) on the same files: for every content validator that is switched on, the diff run's diagnostics are exactly the scan run's verdicts of the touched blocks - nothing extra, nothing lost. *)
+Theorem C02_process_diff_run_vs_scan_run : forall a_scan a_diff p_s p_d ms tb cd ch v,
+  plan_of a_scan = Ok p_s -> plan_of a_diff = Ok p_d -> scan_vs_diff a_scan a_diff ->
+  NoDup (map (fun m => rf_path (mf_file m)) ms) ->
+  model_changes (main_case a_diff p_d ms tb cd) = Ok ch -> NoDup (map fst ch) ->
+  (forall m l, In m ms -> In (rf_path (mf_file m), l) ch -> eff_ignored a_diff m = false ->
+     rf_exists (mf_file m) = true /\ (pl_star p_s = true \/ rf_allow (mf_file m) = true)) ->
+  let cs := model_context (main_case a_scan p_s ms tb cd) in
+  let cdf := model_context (main_case a_diff p_d ms tb cd) in
+  cr_panic cs = false -> cr_errs cs = [] -> cr_panic cdf = false -> cr_errs cdf = [] ->
+  In v content_validators ->
+  In v (active_validators (pl_enabled p_s) (pl_disabled p_s)) ->
+  prepass_clean v (cr_ctx cs) ->
+  let o := oracles_of tb in
+  let of_v := fun pd : str * diag => d_code (snd pd) =? v in
+  exists r_s r_d,
+    main_model a_scan ms tb cd = MRun r_s /\ main_model a_diff ms tb cd = MRun r_d /\
+    (* exactly the touched blocks, with full-scan verdicts *)
+    Permutation (filter of_v (vr_diags r_d)) (selected_scan_diags o v ch (cr_ctx cs)) /\
+    Permutation (filter of_v (vr_diags r_s))
+      (flat_map (fun f => flat_map (block_verdict o (named_modified (cr_ctx cs)) v f) (fc_blocks f)) (cr_ctx cs)) /\
+    (* nothing extra *)
+    (forall pd, In pd (vr_diags r_d) -> d_code (snd pd) = v -> In pd (vr_diags r_s)) /\
+    (* nothing lost *)
+    (forall f bc pd, In f (cr_ctx cs) -> In bc (fc_blocks f) ->
+       touched_by (lcs_of ch (fc_path f)) bc = true ->
+       In pd (block_verdict o (named_modified (cr_ctx cs)) v f bc) ->
+       In pd (vr_diags r_d) /\ In pd (vr_diags r_s) /\ d_code (snd pd) = v).
+Proof. exact main_diff_run_vs_scan_run. Qed.
+Print Assumptions C02_process_diff_run_vs_scan_run.
